@@ -952,6 +952,7 @@ static int corr(uint64_t seed, const std::string& tier, const std::string& outdi
         static const char* K[] = {"OIL", "WATER", "GAS", "DISGAS", "VAPOIL", "RUNSPEC", "GRID", "PROPS"};
         const std::string base = fs::absolute(outdir + "/tmp").lexically_normal().string();
         const int nCases = thorough ? 6000 : 700;
+        int nKilled = 0;
         for (int n = 0; n < nCases; ++n) {
             const int nf = r.range(2, 5);
             const bool dagBias = r.coin(3, 4);
@@ -976,7 +977,14 @@ static int corr(uint64_t seed, const std::string& tier, const std::string& outdi
             const std::string dir = base + "/s" + std::to_string(n);
             std::error_code ec;
             fs::create_directories(dir + "/sub", ec);
-            auto fname = [&](int f) { return "f" + std::to_string(f) + ".inc"; };
+            // where the files live: now and then in sub/ under the base name of ANOTHER file (equal names, different paths)
+            std::vector<std::string> loc(nf);
+            for (int i = 0; i < nf; ++i) loc[i] = "f" + std::to_string(i) + ".inc";
+            for (int i = 1; i < nf; ++i) if (r.coin(1, 5)) {
+                std::string cand = "sub/f" + std::to_string(r.range(0, nf - 1)) + ".inc";
+                if (std::find(loc.begin(), loc.end(), cand) == loc.end()) { loc[i] = cand; sink.count("inc.same_name_other_directory"); }
+            }
+            auto fname = [&](int f) { return f < nf ? loc[f] : "f" + std::to_string(f) + ".inc"; };
             for (int i = 0; i < nf; ++i) {
                 std::string text;
                 for (const auto& st : fl[i]) {
@@ -1000,7 +1008,7 @@ static int corr(uint64_t seed, const std::string& tier, const std::string& outdi
             pid_t pid = fork();
             if (pid == 0) {
                 close(pfd[0]);
-                struct rlimit rl; rl.rlim_cur = rl.rlim_max = 10; setrlimit(RLIMIT_CPU, &rl);
+                struct rlimit rl; rl.rlim_cur = rl.rlim_max = 3; setrlimit(RLIMIT_CPU, &rl);
                 rl.rlim_cur = rl.rlim_max = (rlim_t) 4 << 30; setrlimit(RLIMIT_AS, &rl);
                 std::string a;
                 Opm::ParseContext ctx; Opm::ErrorGuard errors;
@@ -1043,6 +1051,8 @@ static int corr(uint64_t seed, const std::string& tier, const std::string& outdi
               if (endinc) sink.count("inc.with_endinc"); }
             sink.count(ans == "err" ? "inc.err" : (ans.rfind("ok", 0) == 0 ? "inc.ok" : "inc.killed"));
             sink.emit("inc.run 4000 0 " + fa, ans);
+            // a parser that does not end on cyclic includes costs the CPU limit per case: three of them are evidence enough
+            if (ans == "killed" || ans == "out-of-memory") { if (++nKilled >= 3) { sink.count("inc.stopped_after_killed"); break; } }
         }
     }
 
